@@ -17,6 +17,11 @@ Driver for C10. Case lines (see harness/c10/main.go):
 
   <id> T <waitH> <custom> <budget ms, 0 = 1h> <prog: n hact…> => <status> <body> <escaped> <releasedEarly> <hpanicked> <recovered> <follow>
       hact = W | D | X | aC | aE | aT | sH | aR | hold | P<v> | G<n>   (the timed chain, flattened; G<n> = Next's loop test)
+
+  <id> O <opts: n opt…> <path> <prog: n hact…> => <hasDeadline> <budget s, 0 without deadline> <skipFn calls> <status> <body> <escaped> <hpanicked> <recovered>
+      opt = D <ms> | NL | WL | H <tag> | SP <paths> | PX <paths> | SX <paths> | SK <0 = nil | 1 = returns false | 2 = returns true>
+      the options of timeout.New in the order given; the request goes to <path>; the handler sees a context with a
+      deadline iff the request was not skipped; prog has only W / P<v> / G<n> (nothing times out: the budget is 1h)
 -/
 namespace Rivaas.DriverC10
 open Rivaas.Proto Rivaas.Chain
@@ -191,6 +196,45 @@ def stepT (id : String) (inp obs : List String) : String :=
         s!"{tStatus s1.status} {s1.body.length} {" ".intercalate (s1.body.map chs)} 0 {if s1.releasedEarly then 1 else 0} {if s1.panicChan.isSome then 1 else 0} {if s1.recovered.isSome then 1 else 0} 229"
   | _, _ => s!"{id} bad-case"
 
+open Rivaas.Timeout in
+def pOpt : P Opt := do
+  let t ← tok
+  if t == "D" then Opt.duration <$> nat else if t == "NL" then pure .withoutLogging else if t == "WL" then pure .withLogger
+  else if t == "H" then Opt.handler <$> nat
+  else if t == "SP" then Opt.skipPaths <$> list str else if t == "PX" then Opt.skipPrefix <$> list str
+  else if t == "SX" then Opt.skipSuffix <$> list str
+  else if t == "SK" then do
+    let k ← nat
+    pure (.skip (if k == 0 then none else some (k == 2)))
+  else failure
+
+open Rivaas.Timeout in
+def stepO (id : String) (inp obs : List String) : String :=
+  let pIn : P (List Opt × List Char × List HAct) := do
+    let o ← list pOpt; let p ← str; let pr ← list pHAct; pure (o, p, pr)
+  let pOut : P (Bool × Nat × Nat × Nat × List Nat × Option Nat × Bool × Bool) := do
+    let dl ← bool; let bud ← nat; let calls ← nat; let st ← nat; let b ← list nat; let e ← opt nat; let hp ← bool; let rc ← bool
+    pure (dl, bud, calls, st, b, e, hp, rc)
+  match runP pIn inp, runP pOut obs with
+  | some (opts, path, prog), some (dl, bud, calls, st, b, e, hp, rc) =>
+    let cfg := configure opts
+    let skipped := shouldSkip cfg path
+    let fuel := 4 * prog.length + 16
+    let s := if skipped then runSkipped 0 prog (init prog) else fair false true fuel (init prog)
+    if s.rpc != .returned then s!"{id} bad-case the program does not return in the model"
+    else
+      let mCalls := if skipFuncCalled cfg path then 1 else 0
+      let mBud := if skipped then 0 else cfg.durationMs / 1000
+      let mObs := (!skipped, mBud, mCalls, tStatus s.status, s.body, s.panicChan.isSome, s.recovered.isSome)
+      let body := b.map tChunk
+      let iObs := (dl, bud, calls, st, body, hp, rc)
+      let io : TObs := { status := (if st == 408 then some .t408 else if st == 500 then some .rec500 else if st == 200 then none else some .h),
+                         body := body, escaped := e.isSome, releasedEarly := false, hPanicked := hp, recovered := rc }
+      let chs : Timeout.Chunk → String | .h => "7" | .t408 => toString timeoutChunk | .rec500 => toString recChunk
+      verdict id (mObs == iObs && e.isNone) (timeoutOK io && (skipSpec opts path == !dl)) "-"
+        s!"{if skipped then 0 else 1} {mBud} {mCalls} {tStatus s.status} {s.body.length} {" ".intercalate (s.body.map chs)} 0 {if s.panicChan.isSome then 1 else 0} {if s.recovered.isSome then 1 else 0}"
+  | _, _ => s!"{id} bad-case"
+
 def step (line : String) : String :=
   match splitCase line with
   | none => "? bad-line"
@@ -198,6 +242,7 @@ def step (line : String) : String :=
     match inp with
     | "R" :: rest => stepR id rest obs
     | "T" :: rest => stepT id rest obs
+    | "O" :: rest => stepO id rest obs
     | _ => s!"{id} bad-case unknown kind"
 
 end Rivaas.DriverC10
